@@ -443,7 +443,10 @@ class Evaluator:
                 return const_av({'True': True, 'False': False, 'None': None}[node.id])
             mod = getattr(self, 'module_consts', {})
             if node.id in mod:
-                return self.ev(mod[node.id], {})            # a module-level table / constant of the copy
+                try:
+                    return self.ev(mod[node.id], {})            # a module-level table / constant of the copy
+                except Unknown:
+                    return AV('other', val=('name', node.id))
             return AV('other', val=('name', node.id))
         if isinstance(node, ast.IfExp):
             return self.ev(node.body, env) if truth(self.ev(node.test, env)) else self.ev(node.orelse, env)
@@ -485,7 +488,10 @@ class Evaluator:
                 return self.text_attrs[txt]
             cc = getattr(self, 'class_consts', {})
             if isinstance(node.value, ast.Name) and node.value.id in ('self', 'cls') and node.attr in cc:
-                return self.ev(cc[node.attr], {})            # a class-level constant of the copy
+                try:
+                    return self.ev(cc[node.attr], {})            # a class-level constant of the copy
+                except Unknown:
+                    return AV('other', val=('name', 'self.' + node.attr))     # an opaque named object (a sentinel, ...)
             if txt in ('datetime.date', 'datetime.datetime', 'self.EmptyCell', 'self.__class__', 'date_parser.ParserError'):
                 return AV('other', val=('class', {'datetime.date': 'date', 'datetime.datetime': 'datetime',
                                                   'self.EmptyCell': 'EmptyCell', 'self.__class__': 'EmptyCell'}.get(txt, txt)))
@@ -936,7 +942,8 @@ def evaluator_for(cp, hooks=None, max_depth: int = 8) -> Evaluator:
     mc = {}
     for st in cp.module_tree.body:
         if isinstance(st, ast.Assign) and len(st.targets) == 1 and isinstance(st.targets[0], ast.Name) and \
-                isinstance(st.value, (ast.Dict, ast.Tuple, ast.List, ast.Constant, ast.Call)):
-            mc[st.targets[0].id] = st.value
+                (isinstance(st.value, (ast.Dict, ast.Tuple, ast.List, ast.Constant)) or
+                 (isinstance(st.value, ast.Call) and ast.unparse(st.value.func) == 're.compile')):
+            mc[st.targets[0].id] = st.value            # (anything else, e.g. a sentinel `object()`, stays an opaque named object)
     ev.module_consts = mc
     return ev
